@@ -187,7 +187,15 @@ pub fn history(cfg: &Cfg, rep: &mut Report, h: u64, steps: usize, mode: Mode, of
     let mut last_deposit: Option<(usize, i128, i128)> = None; // (user, assets in, shares out) for round trips
     for step in 0..steps {
         if rng.chance(1, 20) {
-            let t = v.w.ledger() + 1 + rng.below(30) as u32;
+            // to the expiry lattice of a live share / asset allowance when there is one, else a random hop
+            let cur0 = v.w.ledger();
+            let mut targets: Vec<u32> = vec![cur0 + 1 + rng.below(30) as u32];
+            for (_, (a, l)) in share_allow.iter().chain(asset_allow.iter()) {
+                if *a > 0 && *l >= cur0 {
+                    targets.extend([*l, *l + 1]);
+                }
+            }
+            let t = (*rng.pick(&targets)).max(cur0 + 1);
             v.w.set_ledger(t);
             rep.op(format!("ledger -> {t}"));
             pre = v.observe();
